@@ -16,6 +16,12 @@
 #ifndef OP
 #define OP 0
 #endif
+#ifndef KOOM
+#define KOOM 0
+#endif
+#ifndef KSIG
+#define KSIG 0
+#endif
 static BusRegistry reg; static struct DBusHashTable ht;
 static BusService *svcp; static char *svc_name;
 static int same_queue (const struct refq *q)
@@ -90,26 +96,36 @@ void harness (void)
   dbus_error_init (&err);
   live0 = vf_live_blocks;
   /* the fault schedule */
-  vf_alloc_calls = 0; vf_oom_at = vf_range (0, 12); vf_signal_calls = 0; vf_signal_fail_at = vf_range (0, 4);
-  VF_ASSUME (vf_oom_at == 0 || vf_signal_fail_at == 0);        /* a single fault */
+  /* a single fault whose index is concrete per job (shape, R4): KOOM-th allocation or KSIG-th signal send */
+  vf_alloc_calls = 0; vf_oom_at = KOOM; vf_signal_calls = 0; vf_signal_fail_at = KSIG;
   ok = run_op (c, flags, &res, &err);
   if (!ok)
     {
       VF_ASSERT (vf_oom_hit == 1 || (vf_signal_fail_at > 0 && vf_signal_calls >= vf_signal_fail_at), "the operation only fails because of the injected fault");
       VF_ASSERT (err.name && vf_err_is (err.name, DBUS_ERROR_NO_MEMORY), "the failure is reported as NoMemory");
       vf_transaction_cancel ();
-      VF_ASSERT (same_queue (&q0), "after cancelling, the owner queue (order and flags) is exactly as before");
+      {
+        /* F8: a requester that was already waiting in the queue has its entry updated in place (flags; position 2 with
+         * REPLACE_EXISTING) by bus_service_add_owner() without an undo hook */
+        int pos0 = refq_find (&q0, c);
+        if (OP == 0 && pos0 > 0 && !same_queue (&q0))
+          {
+            struct refq qx = q0; int ar = (flags & 1) != 0, dnq = (flags & 4) != 0;
+            if (flags & 2) { refq_remove_at (&qx, pos0); refq_insert_at (&qx, 1, c, ar, dnq); }
+            else { qx.ar[pos0] = ar; qx.dnq[pos0] = dnq; }
+            VF_ASSERT (same_queue (&qx), "after cancelling, the queue differs from before at most in the already-queued requester's own entry");
+            VF_FINDING (0, "F8-queued-requester-update-not-undone-on-oom");
+          }
+        else
+          VF_ASSERT (same_queue (&q0), "after cancelling, the owner queue (order and flags) is exactly as before");
+      }
       for (i = 0; i < VF_NCONN; i++) VF_ASSERT (vf_conn[i]->n_owned == n_before[i] && vf_conn[i]->refs == 1, "owned-name counters and connection references are as before");
       VF_ASSERT (vf_live_blocks == live0, "nothing is leaked (allocation balance restored)");
       /* retry with memory available */
       vf_oom_at = 0; vf_signal_fail_at = 0; vf_nev = 0; dbus_error_init (&err);
       ok = run_op (c, flags, &res, &err);
       VF_ASSERT (ok && !err.name, "the retry with memory available succeeds");
-#if OP == 1 && QN == 0
-      VF_WITNESS_OPT ("a fault was injected, rolled back and the operation retried");   /* releasing a non-existent name allocates nothing */
-#else
-      VF_WITNESS ("a fault was injected, rolled back and the operation retried");
-#endif
+      VF_WITNESS_OPT ("a fault was injected, rolled back and the operation retried");   /* optional: the operation may need fewer allocations than the fault index */
     }
   else
     VF_WITNESS_OPT ("operation completed (fault index beyond its allocations)");
